@@ -2,6 +2,8 @@
 Line-protocol driver for the C12 model (merge of partial query results above the leaf).
 
   new <id> <n>                         context `id` := MetricContext whose plan has n targets
+  newp <id> <k1> <k2> ..              context `id` := RootMetricContext.MakePlan over physical plans with k1, k2, .. targets
+  next-stages <hk>:<low>,.. ..         shardScanStage.NextStages over a filtered bitmap: `stages <hk>:<lows> ..`
   resp <id> nf | er | bad              deliver a not-found / other-error / undecodable response
   resp <id> ok <cap> <payload>         deliver a data response
   complete <id> ok|er                  baseTaskContext.Complete(nil | err) (the search pipeline's completion callback)
@@ -37,6 +39,8 @@ import LinVerif.Model.RowRoute
 import LinVerif.Model.TaskMgr
 import LinVerif.Model.C12LeafFilter
 import LinVerif.Model.C12FieldWire
+import LinVerif.Model.C12Plans
+import LinVerif.Model.C12LeafGlue
 import LinVerif.Generated.C12
 
 namespace LinVerif.Driver.C12
@@ -554,6 +558,31 @@ def step (st : DSt) (ws : List String) : DSt × String :=
   | ["new", id, n] =>
     match id.toNat?, n.toNat? with
     | some id, some n => let c := Ctx.new n; (putCtx st id c, showState c)
+    | _, _ => (st, "bad-op")
+  | "next-stages" :: cs =>
+    let parseC (t : String) : Option (Nat × List Nat) :=
+      match t.splitOn ":" with
+      | [hk, lows] =>
+        match hk.toNat?, (lows.splitOn ",").mapM String.toNat? with
+        | some hk, some ls => some (hk, ls)
+        | _, _ => none
+      | _ => none
+    match cs.mapM parseC with
+    | none => (st, "bad-op")
+    | some bm =>
+      -- which expression NextStages stores as the high key: read from the source
+      let hv : LinVerif.LeafGlue.HighKeyOf :=
+        if Generated.C12.nextStagesHighKey.endsWith "GetHighKeys()[IDX]" then .keyAtIndex else .index
+      let stages := LinVerif.LeafGlue.nextStages hv bm
+      let parts := stages.map (fun d => s!"{d.highKey}:" ++
+        (if d.lows.isEmpty then "-" else ",".intercalate (d.lows.map toString)))
+      (st, "stages " ++ (if parts.isEmpty then "-" else " ".intercalate parts))
+  | "newp" :: id :: ks =>
+    match id.toNat?, ks.mapM String.toNat? with
+    | some id, some ks =>
+      if ks.isEmpty then (st, "bad-op") else
+      let pc := if Generated.C12.addRequestsPerTarget then PlanCount.perTarget else PlanCount.assignTolerance
+      let c := Ctx.newPlans pc ks; (putCtx st id c, showState c)
     | _, _ => (st, "bad-op")
   | "resp" :: id :: kind :: rest =>
     match id.toNat? with
